@@ -612,6 +612,17 @@ theorem pattern_cache_history_no_panic_from_start (ops : List PatternCache.Op) :
     PatternCache.Out.panic ∉ PatternCache.run (PatternCache.cfgOf Gen.c10CacheSites) [] ops :=
   pattern_cache_history_no_panic ops [] (fun _ h => absurd h (by simp))
 
+/-- the history dimension on the traffic model: any sequence of exchanges against one valid document in one process,
+    each with the pattern-cache operations its validations perform (any texts, any compilers): every request and
+    response validation returns and no cache operation panics. The traffic model keeps no state of its own (its
+    functions take the operation and the traffic only), the cache is the state; outside F-C10-1 as above. -/
+theorem valid_doc_history_no_panic_partial (op : OpM) (hv : DocValid op = true) (hx : ExclOp op = false)
+    (h : List (ReqTraffic × RespTraffic × List PatternCache.Op)) :
+    (∀ e ∈ h, (validateRequest op e.1).bad = false ∧ (validateResponse op e.2.1).bad = false) ∧
+    PatternCache.Out.panic ∉ PatternCache.run (PatternCache.cfgOf Gen.c10CacheSites) [] (h.map (·.2.2)).flatten :=
+  ⟨fun e _ => ⟨validateRequest_no_panic_partial op e.1 hv hx, validateResponse_no_panic_partial op e.2.1 hv hx⟩,
+   pattern_cache_history_no_panic_from_start _⟩
+
 /-- witness that the table obligation is what the theorem needs: with an effective store that is also reached after a
     failed compile, the second validation of one uncompilable pattern panics (the first reports the compile error) -/
 theorem store_on_error_poisons_cache :
